@@ -12,13 +12,15 @@ Each site is classified:
 import ast
 import os
 
-ROOT = "/repo/nrel/hive"
+ROOT = os.environ.get("VF_REPO", "/repo") + "/nrel/hive"
 SET_FIELDS = ("fleet_ids", "on_shift_access_chargers", "memberships")
 COVERED = {
     "dispatcher/instruction_generator/assignment_ops.py:nearest_shortest_queue_ranking": "H01a",
     "dispatcher/instruction_generator/assignment_ops.py:shortest_time_to_charge_ranking": "H01b",
     "util/h3_ops.py:nearest_entity": "H01c",
     "util/h3_ops.py:_search": "H01c",
+    "util/h3_ops.py:get_entities_at_cell": "H01c",
+    "state/simulation_state/update/step_simulation.py:update_instruction_generator": "H01g",
     "dispatcher/instruction_generator/dispatcher.py:generate_instructions": "H01e",
     "state/simulation_state/update/charging_price_update.py:_map_to_station_ids": "H01d",
     "state/simulation_state/update/charging_price_update.py:update": "H01d / H11-price",
